@@ -74,6 +74,18 @@ struct ChildOutcome {
     protocol_error: Option<String>,
 }
 
+/// CPU seconds (user + system, all threads) the process has used so far; None if it is gone.
+pub fn cpu_secs(pid: u32) -> Option<f64> {
+    let st = std::fs::read_to_string(format!("/proc/{pid}/stat")).ok()?;
+    // the command name (field 2) may contain spaces: count fields after the closing parenthesis
+    let rest = &st[st.rfind(')')? + 1..];
+    let f: Vec<&str> = rest.split_whitespace().collect();
+    // rest[0] is field 3 (state); utime and stime are fields 14 and 15
+    let ut: f64 = f.get(11)?.parse().ok()?;
+    let stime: f64 = f.get(12)?.parse().ok()?;
+    Some((ut + stime) / 100.0)
+}
+
 fn run_child(prop: &str, grid: &str, from: u64, to: u64, timeout: Duration) -> ChildOutcome {
     let exe = std::env::current_exe().expect("current_exe");
     let mut acc = Acc::default();
@@ -100,9 +112,16 @@ fn run_child(prop: &str, grid: &str, from: u64, to: u64, timeout: Duration) -> C
     let mut finished = false;
     let mut abnormal = None;
     let mut protocol_error = None;
+    // The watchdog counts CPU seconds of the worker since its last line, not wall time: on an
+    // overloaded or thrashing machine a healthy worker can stand still for minutes.
+    let pid = child.id();
+    let mut quiet_since = std::time::Instant::now();
+    let mut cpu_at_last_line = cpu_secs(pid).unwrap_or(0.0);
     loop {
-        match rx.recv_timeout(timeout) {
+        match rx.recv_timeout(timeout.min(Duration::from_secs(2))) {
             Ok(line) => {
+                quiet_since = std::time::Instant::now();
+                cpu_at_last_line = cpu_secs(pid).unwrap_or(cpu_at_last_line);
                 let (tag, rest) = line.split_at(line.len().min(1));
                 match tag {
                     "@" => current = rest.parse().ok(),
@@ -150,6 +169,16 @@ fn run_child(prop: &str, grid: &str, from: u64, to: u64, timeout: Duration) -> C
                 }
             }
             Err(mpsc::RecvTimeoutError::Timeout) => {
+                let burned = cpu_secs(pid).map_or(0.0, |c| c - cpu_at_last_line);
+                if burned < timeout.as_secs_f64() {
+                    if quiet_since.elapsed() > timeout * 40 {
+                        let _ = child.kill();
+                        let _ = child.wait();
+                        protocol_error = Some("worker was starved of CPU time (machine too busy): re-run".into());
+                        break;
+                    }
+                    continue;
+                }
                 let _ = child.kill();
                 let _ = child.wait();
                 match current {
@@ -200,6 +229,9 @@ pub fn run_grid(prop: &str, grid: &str, len: u64, batch: u64, timeout_s: u64, de
 pub fn run_grid_range(prop: &str, grid: &str, from: u64, to: u64, timeout_s: u64, deadline: std::time::Instant) -> GridResult {
     run_grid_from(prop, grid, from, to, 1, timeout_s, deadline)
 }
+/// C11's known findings are 22 crashing scenarios (each at up to three depths): the limit must sit above them.
+const MAX_ABNORMAL: usize = 96;
+
 fn run_grid_from(prop: &str, grid: &str, start: u64, len: u64, batch: u64, timeout_s: u64, deadline: std::time::Instant) -> GridResult {
     let next = AtomicU64::new(start);
     let total = Mutex::new((Acc::default(), Vec::<(u64, Abnormal)>::new()));
@@ -212,6 +244,12 @@ fn run_grid_from(prop: &str, grid: &str, start: u64, len: u64, batch: u64, timeo
                     incomplete.store(1, Ordering::Relaxed);
                     break;
                 }
+                // every confirmed crash or hang costs a watchdog period twice over: a handful of them
+                // is a verdict, the rest of the grid is left unexplored (and reported as such)
+                if total.lock().unwrap().1.len() >= MAX_ABNORMAL {
+                    incomplete.store(1, Ordering::Relaxed);
+                    break;
+                }
                 let from = next.fetch_add(batch, Ordering::Relaxed);
                 if from >= len {
                     break;
@@ -219,6 +257,10 @@ fn run_grid_from(prop: &str, grid: &str, start: u64, len: u64, batch: u64, timeo
                 let to = (from + batch).min(len);
                 let mut cur = from;
                 while cur < to {
+                    if std::time::Instant::now() >= deadline || total.lock().unwrap().1.len() >= MAX_ABNORMAL {
+                        incomplete.store(1, Ordering::Relaxed);
+                        break;
+                    }
                     let out = run_child(prop, grid, cur, to, Duration::from_secs(timeout_s));
                     let mut t = total.lock().unwrap();
                     t.0.merge(out.acc);
